@@ -4,7 +4,7 @@
 EXTENDS TopicStream, TLC, Json
 
 CONSTANTS
-    MaxPub, MaxImp, MaxAck, MaxForeign, MaxReset, MaxCrash,
+    MaxPub, MaxPrune, MaxImp, MaxAck, MaxForeign, MaxReset, MaxCrash,
     MinWork,        \* a behaviour is exported only after that many publish/import steps
     Controlled      \* TRUE in the export configs: only schedules the harness can force (see NOTES.md)
 
@@ -20,10 +20,13 @@ MC_AuthorOrder3 == <<"me", "r1", "r2">>
 MC_RemoteBodies2 == <<TRUE, FALSE>>
 MC_RemoteBodies3 == <<TRUE, FALSE, TRUE>>
 MC_RemoteBodiesQ == <<FALSE>>
+MC_RemotePrunesQ == <<FALSE>>
+MC_RemotePrunes2 == <<FALSE, TRUE>>
+MC_RemotePrunes3 == <<FALSE, TRUE, FALSE>>
 MC_ResetHeights == {-1, 0}
 MC_ResetHeights2 == {-1, 0, 1}
 
-OpsJson(S) == {[a |-> o.a, tp |-> o.tp, seq |-> o.seq, body |-> o.body] : o \in S}
+OpsJson(S) == S
 
 \* what the harness compares with the real node after the step
 Post ==
@@ -35,7 +38,7 @@ NoArg == [none |-> TRUE]
 Log(name, arg) == hist' = Append(hist, [act |-> name, arg |-> arg, post |-> Post])
 
 Budgets ==
-    /\ nPub' <= MaxPub /\ nImp' <= MaxImp /\ nAck' <= MaxAck
+    /\ nPub' <= MaxPub /\ nPrune' <= MaxPrune /\ nImp' <= MaxImp /\ nAck' <= MaxAck
     /\ nForeign' <= MaxForeign /\ nReset' <= MaxReset /\ crashes' <= MaxCrash
 
 OpenArg(p, from) == [p |-> p, from |-> from, c |-> cursor', expect |-> OpsJson(expect'), rq |-> rq']
@@ -55,7 +58,7 @@ S_OpenFromCursor ==
     /\ Budgets
 S_ForgeBegin ==
     /\ ~done /\ done' = done
-    /\ ForgeBegin /\ Log("ForgeBegin", [op |-> pub'.op])
+    /\ \E pr \in BOOLEAN, b \in BOOLEAN : ForgeBegin(pr, b) /\ Log("ForgeBegin", [op |-> pub'.op])
     /\ Budgets
 S_ForgeCommit ==
     /\ ~done /\ done' = done
